@@ -14,6 +14,7 @@ inductive Mode where
 structure Rep where
   dd      : DD Nat
   names   : List String       -- snapshot names at indices 1 … top-1 (base first)
+  recs    : List Nat          -- the revision counter recorded in each snapshot's metadata (same order)
   orphans : List String       -- snapshot files left on disk by a revert, not in the chain
   isOpen  : Bool              -- Server.r ≠ nil
   mode    : Mode
@@ -50,17 +51,20 @@ inductive RepOp where
   | lunmap                                -- Server.UpdateLUNMap
   | rbPromote                             -- VerifyRebuildReplica: mode RW, counter equalised
   | rbEnd                                 -- the controller shuts down: every replica is closed
+  | clone (name : String)                 -- a replica of a new volume is made as a clone of snapshot `name`
 
 inductive RepOut where
   | ok
   | refused
   | inadmissible        -- outside the protocol (never sent by controller, cleaner or harness)
   | data (vals : List Nat)
+  | cloned (rev : Nat) (chain : List String) (vals : List Nat)   -- clone completed, replica RW in its volume
+  | cloneFailed                                                   -- clone status "error", replica dropped
 
 namespace Rep
 
 def init (bs nb : Nat) : Rep :=
-  { dd := DD.init bs nb, names := [], orphans := [], isOpen := true, mode := .init, rev := 1,
+  { dd := DD.init bs nb, names := [], recs := [], orphans := [], isOpen := true, mode := .init, rev := 1,
     headN := 0, ckpt := "", rebuilding := false, srcRev := 0, rb := 0 }
 
 /-- payload of `w off len tag` at absolute unit `u` -/
@@ -71,6 +75,9 @@ def indexOf (r : Rep) (n : String) : Nat :=
   match r.names.idxOf? n with
   | some i => i + 1
   | none   => 0
+
+/-- `readDiskData` on every construct: a recorded counter of at most 1 is replaced by the current one -/
+def bumpRecs (r : Rep) : List Nat := r.recs.map fun x => if x ≤ 1 then r.rev else x
 
 def inVolume (r : Rep) (off len : Nat) : Bool := off + len ≤ r.dd.nb * r.dd.bs
 
@@ -101,7 +108,8 @@ def step (r : Rep) : RepOp → Rep × RepOut
     else if r.orphans.contains n then
       -- linkDisk fails on the stale file and the cleanup removes it
       ({ r with orphans := r.orphans.erase n }, .refused)
-    else ({ r with dd := r.dd.snapshot user, names := r.names ++ [n], headN := r.headN + 1 }, .ok)
+    else ({ r with dd := r.dd.snapshot user, names := r.names ++ [n], recs := r.recs ++ [r.rev],
+                   headN := r.headN + 1 }, .ok)
   | .mark n =>
     if !r.isOpen || r.mode ≠ .rw then (r, .refused) else
     let k := r.indexOf n
@@ -120,23 +128,27 @@ def step (r : Rep) : RepOp → Rep × RepOut
       ({ r with dd := r.dd.dropHoles, orphans := r.orphans.erase n }, .ok)
     else if k + 1 = r.dd.top then (r, .refused)
     else if k = 1 then (r, .inadmissible)                    -- RemoveDiffDisk of the base: never sent
-    else ({ r with dd := r.dd.removeIdx k, names := r.names.eraseIdx (k - 1) }, .ok)
+    else ({ r with dd := r.dd.removeIdx k, names := r.names.eraseIdx (k - 1),
+                   -- `updateParentRevisionCounter`: the parent takes over the removed disk's counter
+                   recs := (r.recs.set (k - 2) (r.recs.getD (k - 1) 0)).eraseIdx (k - 1) }, .ok)
   | .revert n =>
     if !r.isOpen then (r, .refused) else
     let k := r.indexOf n
     if k = 0 then (r, .refused) else
     ({ r with dd := r.dd.revert k, names := r.names.take k,
+              recs := ({ r with recs := r.recs.take k } : Rep).bumpRecs,
               orphans := r.orphans ++ r.names.drop k, headN := r.headN + 1 }, .ok)
   | .reopen pre =>
     if !r.isOpen then (r, .refused) else
-    ({ r with dd := r.dd.reopen pre, mode := .init }, .ok)
+    ({ r with dd := r.dd.reopen pre, mode := .init, recs := r.bumpRecs }, .ok)
   | .reload pre =>
     if !r.isOpen then (r, .refused) else
-    ({ r with dd := (r.dd.setPunch true).reopen pre }, .ok)
+    ({ r with dd := (r.dd.setPunch true).reopen pre, recs := r.bumpRecs }, .ok)
   | .close =>
     if !r.isOpen then (r, .ok) else ({ r with dd := r.dd.dropHoles, isOpen := false, mode := .init }, .ok)
   | .open_ pre =>
-    if r.isOpen then (r, .refused) else ({ r with dd := r.dd.reopen pre, isOpen := true, mode := .init }, .ok)
+    if r.isOpen then (r, .refused) else
+    ({ r with dd := r.dd.reopen pre, isOpen := true, mode := .init, recs := r.bumpRecs }, .ok)
   | .resize nb =>
     if !r.isOpen || nb < r.dd.nb then (r, .refused) else ({ r with dd := r.dd.resize nb }, .ok)
   | .punch on => ({ r with dd := r.dd.setPunch on }, .ok)
@@ -152,7 +164,8 @@ def step (r : Rep) : RepOp → Rep × RepOut
     if !r.isOpen || r.rb ≠ 0 || r.mode ≠ .rw || r.indexOf n ≠ 0 || r.orphans.contains n then (r, .refused) else
     -- Controller.Start opens the (closed) replica with preload and makes it RW; AddReplica then takes
     -- the automatic snapshot on every replica
-    ({ r with dd := (r.dd.reopen true).snapshot false, names := r.names ++ [n], headN := r.headN + 1, rb := 1 }, .ok)
+    ({ r with dd := (r.dd.reopen true).snapshot false, names := r.names ++ [n], recs := r.bumpRecs ++ [r.rev],
+              headN := r.headN + 1, rb := 1 }, .ok)
   | .rbReload =>
     if r.rb ≠ 1 || !r.isOpen then (r, .refused) else
     -- from here on the replica under test is the rebuilt one: the source's snapshot files, its own
@@ -166,6 +179,13 @@ def step (r : Rep) : RepOp → Rep × RepOut
     -- all three replicas are RW again: UpdateCheckpoint records the newest snapshot everywhere
     ({ r with mode := .rw, rev := r.srcRev, rb := 3,
               ckpt := match r.names.getLast? with | some n => "volume-snap-" ++ n ++ ".img" | none => "" }, .ok)
+  | .clone n =>
+    if !r.isOpen || r.rb ≠ 0 then (r, .refused) else
+    let k := r.indexOf n
+    if k = 0 then (r, .cloneFailed) else
+    let c := r.dd.cloneOf k
+    (r, .cloned (r.recs.getD (k - 1) 0) (r.names.take k)
+          ((List.range (c.nb * c.bs)).map fun u => c.readUnit u))
   | .rbEnd =>
     if r.rb = 0 then (r, .refused) else
     ({ r with dd := r.dd.dropHoles, isOpen := false, mode := .init, rb := 0 }, .ok)
